@@ -440,6 +440,7 @@ class RF24Mesh(RF24MeshNoMaster):
                     self.set_address(
                         buffer[index],  # skip index + 1 as it's only used for padding
                         struct.unpack("<H", buffer[index + 2 : index + 4])[0],
+                        True,
                     )
 
     def print_details(self, dump_pipes: bool = False, network_only: bool = False):
